@@ -435,5 +435,119 @@ func checkC06(c *Ctx) {
 			c.Obs("sphere_volume_error_ratio_per_doubling_"+rk.name, []float64{errs[0] / errs[1], errs[1] / errs[2]})
 		}
 	}
+	c06HighRes(c)
 	c.Floor(c.Pick(60, 500))
+}
+
+// c06HighRes: completeness and accuracy at resolutions where a full lattice cannot be recorded: slender rods spanning their
+// whole box (so the surface reaches the maximum side of the long axis), incl. cell counts next to powers of two and both
+// renderers where affordable. Surface points (lateral surface and both end caps) must lie within one cell diagonal of the
+// mesh, vertices within one cell of the surface and inside the padded box.
+func c06HighRes(c *Ctx) {
+	type hr struct {
+		axis, cells int
+		uniform     bool
+	}
+	cases := []hr{{0, 255, false}, {1, 256, false}, {2, 511, false}, {1, 300, false}, {2, 150, true}}
+	if !c.Quick {
+		cases = append(cases, hr{1, 255, false}, hr{2, 255, false}, hr{0, 510, false}, hr{0, 1023, false}, hr{1, 1019, false}, hr{0, 1000, false}, hr{2, 257, false}, hr{0, 200, true})
+	}
+	parallelFor(len(cases), func(i int) {
+		k := cases[i]
+		r := c.Rng("highres", i)
+		sz := v3.Vec{X: 0.4, Y: 0.3, Z: 0.35}
+		sz.Set(k.axis, 10)
+		var rod sdf.SDF3
+		kind := "box"
+		if i%2 == 0 {
+			rod, _ = sdf.Box3D(sz, 0)
+		} else {
+			rod, _ = sdf.Cylinder3D(10, 0.17, 0)
+			kind = "cylinder"
+			switch k.axis {
+			case 0:
+				rod = sdf.Transform3D(rod, sdf.RotateY(math.Pi/2))
+			case 1:
+				rod = sdf.Transform3D(rod, sdf.RotateX(math.Pi/2))
+			}
+		}
+		ofs := v3.Vec{X: r.R(-1, 1), Y: r.R(-1, 1), Z: r.R(-1, 1)}
+		s := sdf.Transform3D(rod, sdf.Translate3d(ofs))
+		var rd render.Render3 = render.NewMarchingCubesOctree(k.cells)
+		rname := "octree"
+		if k.uniform {
+			rd, rname = render.NewMarchingCubesUniform(k.cells), "uniform"
+		}
+		ts := render.ToTriangles(s, rd)
+		c.Eval(1)
+		bb := s.BoundingBox()
+		h := bb.Size().MaxComponent() / float64(k.cells)
+		diag := h * math.Sqrt(3)
+		desc := fmt.Sprintf("%s rod 10 long along axis %d at %v", kind, k.axis, ofs)
+		cs := c06Case{i, rname, k.cells, desc}
+		if len(ts) == 0 {
+			c.Violate("", fmt.Sprintf("mc-empty %s cells=%d %s: no triangles", rname, k.cells, desc), cs)
+			return
+		}
+		grid := newTriGrid(ts, diag)
+		far := 0.0
+		var farAt v3.Vec
+		probe := func(in, out v3.Vec) { // f(in) < 0 < f(out): bisect to the surface, measure the distance to the mesh
+			if !(s.Evaluate(in) < 0 && s.Evaluate(out) > 0) {
+				return
+			}
+			for it := 0; it < 50; it++ {
+				m := in.Add(out).MulScalar(0.5)
+				if s.Evaluate(m) < 0 {
+					in = m
+				} else {
+					out = m
+				}
+			}
+			c.Count("highres_surface_points_checked", 1)
+			if d := grid.dist(in, 2); d > far {
+				far, farAt = d, in
+			}
+		}
+		for q := 0; q < 3000; q++ {
+			u := v3.Vec{X: r.N(), Y: r.N(), Z: r.N()}
+			u.Set(k.axis, 0)
+			if u.Length() == 0 {
+				continue
+			}
+			u = u.Normalize()
+			p := ofs
+			p.Set(k.axis, ofs.Get(k.axis)+r.R(-4.9, 4.9))
+			probe(p, p.Add(u.MulScalar(0.6)))
+		}
+		for q := 0; q < 600; q++ { // end caps, away from their rims
+			p := ofs.Add(v3.Vec{X: r.R(-0.08, 0.08), Y: r.R(-0.08, 0.08), Z: r.R(-0.08, 0.08)})
+			sgn := r.Sign()
+			in, out := p, p
+			in.Set(k.axis, ofs.Get(k.axis)+sgn*4.5)
+			out.Set(k.axis, ofs.Get(k.axis)+sgn*5.5)
+			probe(in, out)
+		}
+		worst, outside := 0.0, 0
+		pad := bb.Size().MulScalar(0.0051)
+		for _, t := range ts {
+			for q := 0; q < 3; q++ {
+				v := t[q]
+				worst = math.Max(worst, math.Abs(s.Evaluate(v)))
+				if v.X < bb.Min.X-pad.X || v.Y < bb.Min.Y-pad.Y || v.Z < bb.Min.Z-pad.Z || v.X > bb.Max.X+pad.X || v.Y > bb.Max.Y+pad.Y || v.Z > bb.Max.Z+pad.Z {
+					outside++
+				}
+			}
+		}
+		switch {
+		case far > diag:
+			c.Violate("", fmt.Sprintf("mc-incomplete %s cells=%d %s: surface point %v is %g (or more) from the mesh, cell diagonal %g", rname, k.cells, desc, farAt, far, diag), cs)
+		case worst > h:
+			c.Violate("", fmt.Sprintf("mc-accuracy %s cells=%d %s: a vertex is %g from the surface (cell %g)", rname, k.cells, desc, worst, h), cs)
+		case outside > 0:
+			c.Violate("", fmt.Sprintf("mc-outside-box %s cells=%d %s: %d vertices outside the 0.5%% padded box", rname, k.cells, desc, outside), cs)
+		default:
+			c.Distinct(fmt.Sprintf("%s/highres/%s/%d/%d", rname, kind, k.axis, k.cells))
+		}
+	})
 }
